@@ -4,9 +4,13 @@ compiles, the existing suite passes with the change, the demo fails with it and 
 usage: confirm_seeded.py <srcroot> <out.json> [ID/variant ...]"""
 import json, os, re, subprocess, sys, glob, shutil
 WT = "/tmp/seedconfirm"
-def sh(cmd, cwd=WT, timeout=1800):
-    r = subprocess.run(cmd, shell=True, cwd=cwd, capture_output=True, text=True, timeout=timeout)
-    return r.returncode, (r.stdout + r.stderr)
+def sh(cmd, cwd=WT, timeout=600):
+    try:
+        r = subprocess.run(cmd, shell=True, cwd=cwd, capture_output=True, text=True, timeout=timeout)
+        return r.returncode, (r.stdout + r.stderr)
+    except subprocess.TimeoutExpired:
+        subprocess.run(["pkill", "-9", "-f", WT + "/target/debug/deps"])
+        return 124, "TIMEOUT (counted as a failure)"
 def clean():
     sh("git checkout -q -- . && git clean -fdq -e target")
 def main():
